@@ -1,3 +1,5 @@
 SPECIFICATION TraceSpec
+CONSTANTS
+  Variant = "none"
 INVARIANT Verdict
 CHECK_DEADLOCK FALSE
